@@ -245,6 +245,8 @@ def plan(tier, seed):
             parts = 8 if deep else 1
             for pi in range(parts):
                 shards.append({"universe": u, "variant": vn, "kinds": kinds, "deep": deep, "part": [pi, parts]})
+    for i, sh in enumerate(shards):
+        sh["first_index"] = (0, -1)[i % 2]       # which path configuration the shard loads first (first / last configured)
     return {"shards": shards}
 
 
@@ -254,6 +256,7 @@ def run_shard(sh):
     ref = Conf()
     U = worlds.universes(ref, sh["tier"])
     W = worlds.World(ref, U[sh["universe"]], sh["universe"])
+    first = worlds.touch_first(W.names[sh.get("first_index", 0)])
     errs = rstore.bind_sources(W.sources, ref)
     if errs:
         raise RuntimeError("source description does not match the routing code: " + "; ".join(errs))
@@ -296,14 +299,15 @@ def run_shard(sh):
                 if x["signature"].startswith(("junk-changes-result", "exception", "unexpected-SpilException", "duplicates")):
                     rec.violation(x["signature"] + "/with-junk", "search", [sh["universe"], sh["kinds"], s], x["observed"], x["expected"])
         rec.extra = {"junk_entries": len(junk)}
-    rec.extra.update({"universe": sh["universe"], "entities": len(W.leaves), "existing_path_backed": len(W.store.paths), "searches": len(S)})
-    return rec.result()
+    rec.extra.update({"universe": sh["universe"], "entities": len(W.leaves), "existing_path_backed": len(W.store.paths), "searches": len(S), "first_loaded": first})
+    return worlds.tag_first(rec.result(), first)
 
 
 def replay_case(kind, case):
     from mc.ref.model import Conf
     from mc import env
     ref = Conf()
+    worlds.touch_first()
     uni, kinds, s = case
     U = worlds.universes(ref, "thorough")
     W = worlds.World(ref, U[uni], uni)
